@@ -57,9 +57,11 @@ enum GOp {
     Create { k: usize, extra: i64 },
     /// plain send from the owner to the miner actor
     Fund { m: usize, fil: i64 },
-    PreCommit { m: usize, count: usize },
+    /// `dup`: the first sector is listed twice in the batch
+    PreCommit { m: usize, count: usize, #[serde(default)] dup: bool },
     /// prove the first `n` pending pre-commits in one batch
-    ProveCommit { m: usize, n: usize },
+    /// `dup`: the first sector is named twice (another pre-commit stays outstanding)
+    ProveCommit { m: usize, n: usize, #[serde(default)] dup: bool },
     /// move the clock by `epochs`; then one cron tick (or none)
     Jump { epochs: i64, tick: bool },
     /// `n` times: (optionally submit the window PoSt of miner m's open deadline), go to the deadline's last
@@ -330,10 +332,17 @@ fn derive(w: &W, i: usize, t: &InvocationTrace, pre: &MSnap, post: &MSnap, epoch
     let (kind, mop): (&'static str, String) = if m == MM::PreCommitSectorBatch2 as u64 {
         let p: PreCommitSectorBatchParams2 = t.params.as_ref().unwrap().deserialize().unwrap();
         let secs: Vec<(u64, TokenAmount)> = p.sectors.iter().map(|s| (s.sector_number, post.pc.get(&s.sector_number).cloned().unwrap_or_default())).collect();
+        // a sector number listed twice: the model rejects the batch itself (illegal_argument)
+        let distinct: BTreeSet<u64> = secs.iter().map(|x| x.0).collect();
+        if code == 16 && distinct.len() < secs.len() { ext = 0; }
         ("precommit", format!("MPreCommit {}", plist(secs.iter().map(|(s, a)| (*s, a)))))
     } else if m == MM::ProveCommitSectors3 as u64 {
         let p: ProveCommitSectors3Params = t.params.as_ref().unwrap().deserialize().unwrap();
         let nums: Vec<u64> = p.sector_activations.iter().map(|a| a.sector_number).collect();
+        // a pre-committed sector named twice: the model must reject the batch itself (illegal_state from
+        // delete_precommitted_sectors), it is not an input
+        let distinct: BTreeSet<u64> = nums.iter().cloned().collect();
+        if code == 20 && failed_upt.is_none() && distinct.len() < nums.len() && nums.iter().all(|s| pre.pc.contains_key(s)) { ext = 0; }
         let secs: Vec<(u64, TokenAmount)> = if ok {
             nums.iter().filter(|s| pre.pc.contains_key(s) && post.live.contains_key(s)).map(|s| (*s, post.live[s].0.clone())).collect()
         } else if let Some((d, _)) = &failed_upt {
@@ -713,7 +722,7 @@ fn run_gop(w: &mut W, cx: &mut Ctx, op: &GOp) {
             let (o, id) = (owner(w, *m), w.miners[*m].id);
             message::<()>(w, cx, "fund", &o, &id, &TokenAmount::from_whole(*fil), METHOD_SEND, None);
         }
-        GOp::PreCommit { m, count } => {
+        GOp::PreCommit { m, count, dup } => {
             let (wk, id) = (worker(w, *m), w.miners[*m].id);
             let pol = Policy::default();
             let exp = w.v.epoch() + pol.min_sector_expiration + fil_actor_miner::max_prove_commit_duration(&pol, seal).unwrap() + 100;
@@ -727,17 +736,24 @@ fn run_gop(w: &mut W, cx: &mut Ctx, op: &GOp) {
                 expiration: exp,
                 unsealed_cid: CompactCommD::default(),
             }).collect();
+            let mut sectors = sectors;
+            if *dup { let first = sectors[0].clone(); sectors.push(first); }
             let e = w.v.epoch();
             let c = message(w, cx, "precommit", &wk, &id, &TokenAmount::zero(), MM::PreCommitSectorBatch2 as u64, Some(PreCommitSectorBatchParams2 { sectors }));
             w.miners[*m].next_sector += *count as u64;
             if c == 0 { for j in 0..*count as u64 { w.miners[*m].pending.push((base + j, e)); } }
         }
-        GOp::ProveCommit { m, n } => {
+        GOp::ProveCommit { m, n, dup } => {
             let (wk, id) = (worker(w, *m), w.miners[*m].id);
-            let n = (*n).min(w.miners[*m].pending.len());
+            let np = w.miners[*m].pending.len();
+            // with a duplicate entry another pre-commit must stay outstanding (its deposit keeps
+            // pre_commit_deposits large enough for a double release to go unnoticed by the actor's own checks)
+            let dup = *dup && np >= 2;
+            let n = (*n).min(if dup { np - 1 } else { np });
             if n == 0 { return; }
-            let batch: Vec<(u64, i64)> = w.miners[*m].pending.drain(..n).collect();
-            let sector_activations: Vec<SectorActivationManifest> = batch.iter().map(|(s, _)| SectorActivationManifest { sector_number: *s, pieces: vec![] }).collect();
+            let batch: Vec<(u64, i64)> = if dup { w.miners[*m].pending[..n].to_vec() } else { w.miners[*m].pending.drain(..n).collect() };
+            let mut sector_activations: Vec<SectorActivationManifest> = batch.iter().map(|(s, _)| SectorActivationManifest { sector_number: *s, pieces: vec![] }).collect();
+            if dup { sector_activations.push(SectorActivationManifest { sector_number: batch[0].0, pieces: vec![] }); }
             let params = ProveCommitSectors3Params {
                 sector_proofs: sector_activations.iter().map(|sa| RawBytes::new(vec![sa.sector_number as u8; 4])).collect(),
                 sector_activations,
@@ -853,9 +869,9 @@ fn gen_op(r: &mut Prng, w: &W, ops_so_far: usize, plan: &mut std::collections::V
         if rich {
             // enough sectors that the pledge total outweighs the creation deposits (the miner survives F1)
             let cnt = 34 + r.below(10) as usize;
-            plan.push_back(GOp::PreCommit { m: nm, count: cnt });
+            plan.push_back(GOp::PreCommit { m: nm, count: cnt, dup: false });
             plan.push_back(GOp::Jump { epochs: 151 + r.range(0, 30), tick: r.chance(50) });
-            plan.push_back(GOp::ProveCommit { m: nm, n: cnt });
+            plan.push_back(GOp::ProveCommit { m: nm, n: cnt, dup: false });
         }
         return GOp::Create { k, extra: if r.chance(95) { if rich { r.range(1500, 6000) } else { r.range(0, 3000) } } else { -1 } };
     }
@@ -868,11 +884,11 @@ fn gen_op(r: &mut Prng, w: &W, ops_so_far: usize, plan: &mut std::collections::V
             let count = 1 + r.below(4) as usize;
             if r.chance(60) {
                 plan.push_back(GOp::Jump { epochs: 151 + r.range(0, 60), tick: r.chance(50) });
-                plan.push_back(GOp::ProveCommit { m, n: if r.chance(70) { count } else { 1 } });
+                plan.push_back(GOp::ProveCommit { m, n: if r.chance(70) { count } else { 1 }, dup: false });
             }
-            GOp::PreCommit { m, count }
+            GOp::PreCommit { m, count, dup: r.chance(4) }
         }
-        10..=19 if ready > 0 => GOp::ProveCommit { m, n: 1 + r.below(ready as u64) as usize },
+        10..=19 if ready > 0 => GOp::ProveCommit { m, n: 1 + r.below(ready as u64) as usize, dup: r.chance(15) },
         10..=13 if !mh.pending.is_empty() => GOp::Jump { epochs: 151 + r.range(0, 40), tick: r.chance(50) },
         14..=19 => GOp::Fund { m, fil: r.range(1, 500) },
         20..=31 => GOp::Award { m, penalty: if r.chance(60) { 0 } else { r.below(1 << 58) as i64 }, pscale: if r.chance(70) { 1 } else { 200 }, gas: r.below(1 << 50) as i64, wins: if r.chance(95) { r.range(1, 3) } else { 0 } },
@@ -942,9 +958,9 @@ fn witness() -> GCase {
         GOp::Jump { epochs: DAY + 10, tick: false },
         GOp::Withdraw { m: 0, stranger: false, fil: 1 },
         GOp::Award { m: 0, penalty: 0, pscale: 1, gas: 1000, wins: 1 },
-        GOp::PreCommit { m: 0, count: 2 },
+        GOp::PreCommit { m: 0, count: 2, dup: false },
         GOp::Jump { epochs: 200, tick: true },
-        GOp::ProveCommit { m: 0, n: 2 },
+        GOp::ProveCommit { m: 0, n: 2, dup: false },
         GOp::Withdraw { m: 0, stranger: false, fil: 1 },
         GOp::Deadlines { m: 0, n: 3, post: true },
     ] }
